@@ -19,6 +19,10 @@ impl ParserOptions { #[verifier::external_body] pub fn tokenizer_options(&self) 
 // projections of brush-parser source.rs / tokenizer.rs (Arc erased: read-only data)
 pub struct SourcePosition { pub index: usize, pub line: usize, pub column: usize }
 pub struct SourceSpan { pub start: SourcePosition, pub end: SourcePosition }
+impl SourceSpan {
+    // source.rs SourceSpan::length: `self.end.index - self.start.index` (characters)
+    pub fn length(&self) -> (r: usize) requires self.start.index <= self.end.index ensures r == self.end.index - self.start.index { self.end.index - self.start.index }
+}
 pub enum Token { Operator(String, SourceSpan), Word(String, SourceSpan) }
 pub open spec fn token_span(t: Token) -> SourceSpan { match t { Token::Operator(_, l) => l, Token::Word(_, l) => l } }
 // character count of a text
